@@ -63,21 +63,24 @@ var fixedInternalUDP, fixedInternalHTTP = func() (string, string) {
 	return ua, ha
 }()
 
-func isClientMsgUDP(msg string) bool  { return msg != fixedInternalUDP && !strings.Contains(msg, "probe-internal") }
-func isClientMsgHTTP(msg string) bool { return msg != fixedInternalHTTP && !strings.Contains(msg, "probe-internal") }
-
+func isClientMsgUDP(msg string) bool {
+	return msg != fixedInternalUDP && !strings.Contains(msg, "probe-internal")
+}
+func isClientMsgHTTP(msg string) bool {
+	return msg != fixedInternalHTTP && !strings.Contains(msg, "probe-internal")
+}
 
 const injectedClientMsg = "injected client error"
 
 type spyLogic struct {
-	mu       sync.Mutex
-	kind     string // ok | client | internal
-	token    string
-	annResp  bittorrent.AnnounceResponse
+	mu         sync.Mutex
+	kind       string // ok | client | internal
+	token      string
+	annResp    bittorrent.AnnounceResponse
 	c0, s0, i0 uint32
-	call     string
-	annReq   *bittorrent.AnnounceRequest
-	after    chan struct{}
+	call       string
+	annReq     *bittorrent.AnnounceRequest
+	after      chan struct{}
 }
 
 func (s *spyLogic) err() error {
@@ -428,17 +431,17 @@ func queryUnescape(s string) (string, error) {
 // ---- packet builders (client side, written from BEP 15 / BEP 41) ----------------------------
 
 type annFields struct {
-	connID      []byte
-	action      uint32
-	tx          []byte
-	ih, pid     []byte
+	connID       []byte
+	action       uint32
+	tx           []byte
+	ih, pid      []byte
 	dl, left, ul uint64
-	event       uint32
-	ipField     []byte // 4 or 16 bytes
-	key         uint32
-	numWant     uint32
-	port        uint16
-	options     []byte
+	event        uint32
+	ipField      []byte // 4 or 16 bytes
+	key          uint32
+	numWant      uint32
+	port         uint16
+	options      []byte
 }
 
 func (f annFields) build() []byte {
